@@ -27,6 +27,7 @@ def handle (line : String) : String :=
       -- skip = 0 goes through `aesCtr` so that both exported entry points are exercised
       toHex (if skip == 0 then aesCtr k iv d else aesCtrAt k iv skip d)
     | _, _, _, _ => "bad-op"
+  | ["hmac256", k, m] => hex2 (fun k m => toHex (hmacSha256 k m)) k m
   | _ => "bad-op"
 
 def main (args : List String) : IO Unit :=
